@@ -97,16 +97,16 @@ repeated form of a slice, which the map builder rejects (a map entry holds one
 value field). -/
 theorem registered_wins_map_key {cfg : Cfg} {k v : TyDef} {n tag : String} {c vc : Ty}
     (hn : k.regName = some n) (h : LastReg cfg n "" c) (hk : v.kind ≠ .map)
-    (hv : build cfg v "" = .ok vc) (hps : vc.isProtoSlice = false) :
+    (hv : build cfg v "" = .ok vc) (hps : vc.isProtoSlice = false) (hpk : c.isProtoSlice = false) :
     build cfg (.map k v) tag = .ok (.map c vc (tag == "proto")) :=
-  build_map_key_registered (customLoad_of_last hn h) hk hv hps
+  build_map_key_registered (customLoad_of_last hn h) hk hv hps hpk
 
 /-- **map value** (looked up under ""). -/
 theorem registered_wins_map_val {cfg : Cfg} {k v : TyDef} {n tag : String} {c kc : Ty}
     (hn : v.regName = some n) (h : LastReg cfg n "" c) (hk : v.kind ≠ .map)
-    (hkc : build cfg k "" = .ok kc) (hps : c.isProtoSlice = false) :
+    (hkc : build cfg k "" = .ok kc) (hps : c.isProtoSlice = false) (hpk : kc.isProtoSlice = false) :
     build cfg (.map k v) tag = .ok (.map kc c (tag == "proto")) :=
-  build_map_val_registered (customLoad_of_last hn h) hk hkc hps
+  build_map_val_registered (customLoad_of_last hn h) hk hkc hps hpk
 
 /-- **struct field**: the field `g` with tag `plenc:"<idx>[,<option>]"` (option ≠
 `intern`) of a type registered under that option gets `c`. `Res.map` threads the
@@ -156,13 +156,15 @@ theorem registered_wins_named_sites {cfg : Cfg} {m : String} {d : TyDef} {n tag 
     (LastReg cfg n tag c → buildNamed cfg m (.ptr d) tag = .ok (.ptr c)) ∧
     (LastReg cfg n "" c → buildNamed cfg m (.slice d) tag = sliceWrap cfg tag (!d.isFloatKind) c) ∧
     (LastReg cfg n "" c → ∀ v vc, v.kind ≠ .map → build cfg v "" = .ok vc → vc.isProtoSlice = false →
+        c.isProtoSlice = false →
         buildNamed cfg m (.map d v) tag = .ok (.map c vc (tag == "proto"))) ∧
     (LastReg cfg n "" c → ∀ k kc, build cfg k "" = .ok kc → c.isProtoSlice = false →
+        kc.isProtoSlice = false →
         buildNamed cfg m (.map k d) tag = .ok (.map kc c (tag == "proto"))) :=
   ⟨fun h => buildNamed_ptr_registered (customLoad_of_last hn h) hk,
    fun h => buildNamed_slice_registered (customLoad_of_last hn h) hk,
-   fun h _ _ hv hb hps => buildNamed_map_key_registered (customLoad_of_last hn h) hv hb hps,
-   fun h _ _ hb hps => buildNamed_map_val_registered (customLoad_of_last hn h) hk hb hps⟩
+   fun h _ _ hv hb hps hpk => buildNamed_map_key_registered (customLoad_of_last hn h) hv hb hps hpk,
+   fun h _ _ hb hps hpk => buildNamed_map_val_registered (customLoad_of_last hn h) hk hb hps hpk⟩
 
 /-- the same in a world of instances: after `register i n tag c`, and whatever is
 done to other instances or under other keys, instance `i` answers `c`. -/
